@@ -413,3 +413,17 @@ CHECKS["C03"]["rule"] += (" Stage rowfile (Model/RowCodec.v, Model/CorrRow.v): g
                           "decompressed, its header skipped, and the remaining bytes are read by the MODEL's decoder of the row format: they must parse row after "
                           "row to the end with nothing left over, the keys read must be exactly the keys a disk-only scan reports, and every row must have "
                           "one column per stored field. non-trivial: at least two rows.")
+
+
+# C10 also runs the cluster-vs-standalone stage of C11 (real cluster against the real local plan on a standalone database): queries outside
+# the specification model (FROM-subqueries, HAVING, CROSSTAB, ORDER/LIMIT) are part of "every query" too
+def _c10_finding_key(case):
+    if (case.get("queries") or [{}])[0].get("kind") in ("rows", "decision"):
+        return c11_finding_key(case)
+    return db_finding_key(case)
+
+
+CHECKS["C10"]["stages"] = CHECKS["C10"]["stages"] + [dict(sub="c11", quick=6, thorough=120, shrink=["points"], parallel=16, shards=6, shard_min=6, seed_salt=1011)]
+CHECKS["C10"]["finding_key"] = _c10_finding_key
+CHECKS["C10"]["rule"] += (" Stage c11 (shared with C11): 6 clusters x 80 generated SQL queries incl. FROM-subqueries (two levels), HAVING, CROSSTAB, ORDER BY, LIMIT, "
+                          "time ranges; the cluster's rows against the rows of the local plan on a standalone database fed the same points.")
